@@ -132,6 +132,30 @@ func genC03(seed uint64, run int, tier string) Scenario {
 	for i := between(r, 1, 8); i > 0; i-- {
 		sc.Ops = append(sc.Ops, genNCOp(r))
 	}
+	if !sc.SelfClosing && r.IntN(5) == 0 {
+		// one request whose serialised size sits exactly on (or right next to) a power-of-two
+		// multiple: chunking and buffering boundaries
+		op := NCOp{Kind: "editconfig", A: pick(r, datastores...), B: "<config><pad></pad></config>"}
+		hdr := len(xmlDecl)
+		if sc.NoHeader {
+			hdr = 0
+		}
+		base := hdr + len(wantXML(&op, fmt.Sprint(101+len(sc.Ops))))
+		unit := pick(r, 1024, 4096, 8192, 8192, 8192, 16384)
+		if !sc.Server.Echo && r.IntN(4) == 0 {
+			unit = 65536
+		}
+		target := unit * between(r, 1, 3)
+		for target < base {
+			target += unit
+		}
+		target += pick(r, 0, 0, 0, -1, 1)
+		if target < base {
+			target = base
+		}
+		op.B = "<config><pad>" + strings.Repeat("p", target-base) + "</pad></config>"
+		sc.Ops = append(sc.Ops, op)
+	}
 	sc.Ops = append(sc.Ops, NCOp{Kind: "close"})
 	sc.Class = "encode/" + ver
 	sc.fitTimeouts()
@@ -308,6 +332,16 @@ func runC03(env *Env, s Scenario) {
 		}
 		decoded := msgs[k]
 		k++
+		if strings.Contains(op.B, "<pad>") {
+			switch {
+			case len(decoded)%1024 == 0:
+				env.Probe("request-size-exactly-on-a-boundary")
+			case (len(decoded)+1)%1024 == 0 || (len(decoded)-1)%1024 == 0:
+				env.Probe("request-size-next-to-a-boundary")
+			default:
+				env.Probe("request-size-missed-the-boundary")
+			}
+		}
 		if rec.Err != nil {
 			env.Fail("rpc-failed", op.Kind, "op %d (%s) failed: %v", j, op.Kind, rec.Err)
 
